@@ -55,11 +55,10 @@ Record ccase := mkCase {
   c_after : ents }.                 (* entities as dumped AFTER *)
 
 Section Check.
-  Variable stepf : bool -> bool -> list Q -> Z -> Z -> Q.
-  Variable unitf : Z -> Q.
+  Variable stepf : bool -> bool -> list Q -> Z -> Z -> Z -> Q.
 
   Definition case_amount (c : ccase) : Q :=
-    total_amount stepf unitf (c_incr c) (c_equal c) (c_steps c) (c_count c) (c_units c) (c_nsteps c).
+    total_amount stepf (c_incr c) (c_equal c) (c_steps c) (c_count c) (c_units c) (c_nsteps c).
 
   (* run the model of step() on what the implementation started from, compare with what it saved *)
   Definition check_case (tol : Q) (c : ccase) : bool :=
